@@ -550,6 +550,16 @@ def r13_creator_addresses(cx):
     cx.ob("R13", "R13/tables-written-in-index-order", ok, h, "finalize writes the cluster address table and the content info table by iterating the vectors forward (position = id)")
 
 
+def r14_dedup_adder(cx):
+    """with the deduplicating adder an address is shared only by contents with the same Blake3 of their WHOLE bytes"""
+    import c16
+    before = len(cx.obs)
+    c16.r4_dedup(cx)
+    for o in cx.obs[before:]:
+        o.rule = "R14"
+        o.key = "R14/" + o.key.split("/", 1)[1]
+
+
 def r10_witness(cx):
     """type-level: ContentPackCreator::finalize consumes the creator (no insertion after finalisation)"""
     import witness
@@ -578,4 +588,5 @@ RULES = [
     ("R11", r11_blob_extraction, 2),
     ("R12", r12_address_resolution, 3),
     ("R13", r13_creator_addresses, 3),
+    ("R14", r14_dedup_adder, 3),
 ]
